@@ -103,6 +103,18 @@ class HD(H):
         self.effects.append((entity, existed))
 
 
+class HZ(H):
+    """on_remove disables dispatching (a callback may do that): whatever
+    else the running operation still has to announce is postponed."""
+    marks = None
+
+    def on_remove(self, entity, world):
+        super().on_remove(entity, world)
+        if world.dispatch_enabled:
+            world.dispatch_enabled = False
+            self.marks.append(len(self.log))
+
+
 @desper.event_handler('ping')
 class P(Falsy, Plain):
     """Listens to the probe event only: no lifecycle callbacks."""
@@ -119,7 +131,7 @@ class OA(Plain):
         self.log.append((self.label, 'on_add', entity, id(world)))
 
 
-TYPES = {c.__name__: c for c in (A, B, X, N, H, HB, HD, P, OA)}
+TYPES = {c.__name__: c for c in (A, B, X, N, H, HB, HD, HZ, P, OA)}
 
 
 class RecProc(desper.Processor):
@@ -212,6 +224,7 @@ class WorldDriver:
         ctx.procs = {}
         ctx.callback_errors = []
         ctx.effects = []     # (entity, row existed) of in-callback deletes
+        ctx.redisabled = []  # log positions at which a callback disabled
         if self.processors:
             for klass in (RecProc, DelProc):
                 proc = klass(ctx.log)
@@ -225,6 +238,7 @@ class WorldDriver:
         if isinstance(comp, H):
             comp.sink = ctx.callback_errors
             comp.effects = ctx.effects
+            comp.marks = ctx.redisabled
         ctx.comps.append(comp)
         return comp
 
@@ -454,6 +468,11 @@ class WorldDriver:
             except Exception as exc:
                 self.fail('Q', 'op_raised', f'clear raised {exc!r}',
                           op='clear')
+            if ctx.redisabled:
+                # a callback disabled dispatching in the middle of clear():
+                # this is clear()-while-disabled, whose documented loss of
+                # pending events is outside the alphabet (DESIGN 3/C02)
+                raise Pruned('clear() while a callback disabled dispatching')
             for e in list(ctx.rows):
                 self._drop_row(ctx, e, events)
             ctx.pending.clear()
@@ -544,9 +563,26 @@ class WorldDriver:
 
     def _ledger(self, ctx, op, events, log_start, was_enabled):
         wid = id(ctx.world)
-        got = [r for r in ctx.log[log_start:] if r[1] != 'proc']
+        full = ctx.log[log_start:]
+        cut = None
+        if ctx.redisabled:
+            # a callback disabled dispatching at this position of the log
+            cut = sum(1 for r in full[:ctx.redisabled[0] - log_start]
+                      if r[1] != 'proc')
+            del ctx.redisabled[:]
+            ctx.hits['callback_disables_dispatching'] += 1
+        got = [r for r in full if r[1] != 'proc']
         del ctx.log[log_start:]
         want = [(c, ev, e) for c, ev, e in events if ev in events_of(c)]
+
+        def key(x):
+            return (x[0].label, x[1], x[2], wid)
+
+        if cut is not None and got[cut:]:
+            self.fail('L', 'nothing_called_while_disabled',
+                      f'{op}: {[r[:3] for r in got[cut:]]} delivered after a '
+                      f'callback had disabled dispatching', op=op[0],
+                      disabled_by_callback=True)
         if op[0] == 'enable':
             groups = ctx.postponed
             ctx.postponed = []
@@ -555,23 +591,54 @@ class WorldDriver:
                 ctx.hits['release_postponed'] += 1
             pos = 0
             exp_labels = self._show(groups)
-            if len(got) != len(flat):
+            if cut is None and len(got) != len(flat):
                 self.fail('L', 'postponed_delivered_once',
                           f'expected {exp_labels}, delivered '
                           f'{[r[:3] for r in got]}', op='enable',
                           lost=len(got) < len(flat))
+            rest = []
             for g in groups:
                 chunk = got[pos:pos + len(g)]
                 pos += len(g)
-                if (sorted((c.label, ev, e, wid) for c, ev, e in g)
-                        != sorted(chunk)):
+                keys = sorted(key(x) for x in g)
+                if len(chunk) == len(g):
+                    ok = keys == sorted(chunk)
+                else:       # the release stopped inside (or before) g
+                    pool = list(keys)
+                    ok = cut is not None
+                    for r in chunk:
+                        if r in pool:
+                            pool.remove(r)
+                        else:
+                            ok = False
+                    left = [x for x in g if key(x) in pool]
+                    if left:
+                        rest.append(left)
+                if not ok:
                     self.fail('L', 'postponed_in_operation_order',
                               f'expected {exp_labels}, delivered '
                               f'{[r[:3] for r in got]}', op='enable')
+            if cut is not None:
+                ctx.postponed = rest
+                ctx.enabled = False
             return
         if was_enabled:
-            exp = sorted((c.label, ev, e, wid) for c, ev, e in want)
-            if sorted(got) != exp:
+            exp = sorted(key(x) for x in want)
+            if cut is not None:
+                pool = list(exp)
+                for r in got:
+                    if r in pool:
+                        pool.remove(r)
+                    else:
+                        self.fail('L', 'callbacks_exactly_once',
+                                  f'{op}: unexpected {r[:3]}', op=op[0],
+                                  missing=[], extra=[r[1]])
+                left = [x for x in want if key(x) in pool]
+                if left:
+                    ctx.postponed.append(left)
+                    ctx.hits['postponed'] += 1
+                ctx.enabled = False
+            elif sorted(got) != exp:
                 missing = [x[:3] for x in exp if x not in got]
                 extra = [x[:3] for x in got if x not in exp]
                 self.fail('L', 'callbacks_exactly_once',
